@@ -217,9 +217,69 @@ class _FixedIds:
         return {((0.0, 1.0), (0.0,)): "g1", ((0.0, 1.0), (2.0,)): "g2", ((0.0,), (0.0, 1.0)): "g3"}.get(key, "g?")
 
 
+HELPER_CHAIN_SRC = '''
+@tweezer
+def home_zone():
+    return spec.get_static_trap(zone_id="traps")
+
+@tweezer
+def go_home():
+    # no lookup in here: it only calls the helper that does the lookup
+    action.set_loc(home_zone()[0:2, 0:1])
+
+@tweezer{DEC}
+def main(dx: float):
+    go_home()
+    action.turn_on(action.ALL, [0])
+    action.move(grid.shift(home_zone()[0:2, 0:1], dx, spec.get_float_constant(constant_id="pitch")))
+    action.turn_off([0, 1], action.ALL)
+'''
+
+
+def helper_chain_histories(ctx):
+    """kernels that reach a spec lookup through a chain of shared helper kernels, compiled one after the other against different specs
+    (and against none): each traces against ITS spec - the reference model resolves a lookup against the spec of the kernel that is traced"""
+    from bloqade.geometry.dialects.grid import Grid
+    from bloqade.shuttle.arch import ArchSpec, Layout
+    SA = tweezer_prog.harness_spec()
+    lay = Layout(static_traps={"traps": Grid.from_positions([100.0, 103.0, 105.0, 109.0], [50.0, 51.0, 52.0]), "aux": SA.layout.static_traps["aux"]},
+                 fillable={"traps"}, has_cz={"traps"}, has_local={"aux"}, special_grid=dict(SA.layout.special_grid))
+    SB = ArchSpec(layout=lay, float_constants={"pitch": 0.75, "dup": 1.5, "origin": 0.0}, int_constants=dict(SA.int_constants))
+    specs = {"A": SA, "B": SB}
+    helpers = {k: v for k, v in kernels.define(HELPER_CHAIN_SRC.replace("{DEC}", "")).items() if k in ("home_zone", "go_home")}
+    main_src = HELPER_CHAIN_SRC[HELPER_CHAIN_SRC.index("@tweezer{DEC}"):]
+    n = 0
+    for hist in (("A", "B", "late:B", "A", "late:A"), ("late:B", "A", "late:B", "B")):
+        for step, how in enumerate(hist):
+            late = how.startswith("late:")
+            X = specs[how.split(":")[-1]]
+            ctx.evaluations += 1
+            n += 1
+            rep = {"chain_src": HELPER_CHAIN_SRC, "history": list(hist), "step": step}
+            try:
+                m = kernels.define(main_src.replace("{DEC}", "" if late else "(arch_spec=S)"), S=X, **helpers)["main"]
+                st, r = tc.run_impl(m, (1.5,), X if late else ArchSpec())
+            except Exception as e:
+                st, r = "err", f"{type(e).__name__}: {e}"
+            z = X.layout.static_traps["traps"][0:2, 0:1]
+            moved = z.shift(1.5, X.float_constants["pitch"])
+            want = [("W", [z]), ("S", "on", "S", "L"), ("W", [z, moved]), ("S", "off", "L", "S"), ("W", [moved])]
+            got = [(a[0], a[1]) if a[0] == "W" else a[:4] for a in tc.abstract_path(r)] if st == "ok" else None
+            if got != want:
+                where = "-" if got is None else next((f"action {j}" for j in range(min(len(got), len(want))) if got[j] != want[j]), "length")
+                ctx.fail({"kind": "helper-chain-history", "compiled": "at trace time" if late else "with arch_spec"}, rep,
+                         f"step {step} of history {hist}: a kernel reaching its lookups through shared helpers, "
+                         f"{'traced against' if late else 'compiled with'} spec {how.split(':')[-1]}, " +
+                         (f"fails: {str(r)[:100]}" if got is None else f"does not trace the path of that spec (differs at {where})"))
+            else:
+                ctx.nt(("helper-chain", hist, step))
+    ctx.count("helper-chain kernels compiled in histories over two specs", n)
+
+
 def run(ctx):
     S = tweezer_prog.harness_spec()
     reflect_tables(ctx, S)
+    helper_chain_histories(ctx)
     ctx.rule = ("random @tweezer kernels from a grammar (straight-line AOD calls, for/if, typed and untyped helper kernels, closures, "
                 "spec lookups, grids from positions/shift/scale/sub-grids/indexing, literal/variable/branch-joined/argument selectors) x "
                 "argument tuples, plus an error stream (AOD before set_loc, shape-changing move, assert, bad lookup/index); "
@@ -253,6 +313,15 @@ def run(ctx):
 
 def replay(data):
     inp = data["input"]
+    if "chain_src" in inp:
+        class C:
+            def __init__(s): s.fails, s.evaluations = [], 0
+            def fail(s, sig, rep, what): s.fails.append(what)
+            def nt(s, *a): pass
+            def count(s, *a): pass
+        c = C()
+        helper_chain_histories(c)
+        return bool(c.fails), (c.fails or ["every kernel traces against its own spec"])[0][:200]
     S = tweezer_prog.harness_spec()
     if inp.get("kind") == "typed-kernel":
         from kirin.dialects import ilist
